@@ -4,30 +4,30 @@ package specs
 
 import "verifharness/fw"
 
-const e2assume = "rule bodies are observed through injected functions st/en/fl (client boundary); verdicts use event sequence numbers only"
+const e2assume = "rule bodies are observed through injected functions st/en/fl (client boundary); verdicts use event sequence numbers only; the one wall-clock verdict: a case (6-10 calls whose injected functions all terminate, normally < 0.2 s) that has not finished after 60 s did not apply its model to the rules and return"
 
 func init() {
-	fw.Reg(&fw.Spec{ID: "C04", Level: "exploration", Quick: 1000, Thorough: 60000,
+	fw.Reg(&fw.Spec{ID: "C04", Level: "exploration", HangIsViolation: true, Quick: 1000, Thorough: 60000,
 		Rule: "generated rule sets (1-10 rules, saliences in [-3,3] with frequent ties plus wide values, random failing/returning subsets, varied names) driven through Execute / ExecuteSelectedRules / ExecuteSelectedRulesWithControl on engines and pools, ~8 calls per set; a case is distinct by (method, flags, priority/fault shape of the set, observed start/end trace); non-trivial = at least one rule body ran",
 		Assumptions: []string{e2assume, "failing rules fail through div-by-zero, type errors, missing names or a panicking injected function"},
 		MinCounters: map[string]int64{"events": 1000}})
-	fw.Reg(&fw.Spec{ID: "C05", Level: "exploration", Quick: 1000, Thorough: 60000,
+	fw.Reg(&fw.Spec{ID: "C05", Level: "exploration", HangIsViolation: true, Quick: 1000, Thorough: 60000,
 		Rule: "generated rule sets (1-10 rules, ties frequent) through the mix, inverse-mix and six N-M methods (engine and pool mirrors), every valid N/M split reachable, random failing subsets, both error-policy values, GOMAXPROCS in {1,2,4,16}; in every call one earlier-stage rule is a laggard that holds in its end observer until a forbidden later-stage start is logged or 0.3-2.5 ms pass; distinct by (method, split, flags, shape, observed trace)",
 		Assumptions: []string{e2assume, "holds only provoke; they never decide"},
 		MinCounters: map[string]int64{"events": 1000, "holds_entered": 100}})
-	fw.Reg(&fw.Spec{ID: "C11", Level: "exploration", Quick: 1000, Thorough: 60000,
+	fw.Reg(&fw.Spec{ID: "C11", Level: "exploration", HangIsViolation: true, Quick: 1000, Thorough: 60000,
 		Rule: "sequences of 6-8 calls with different methods (all 21 engine methods and the 24 pool methods) on the same engine / the same pooled instance, rule sets mixing returning (bare, value, nested in if/for/forRange/else-if), non-returning, failing-before-return and failing-in-return rules; distinct by (method, shape, trace)",
 		Assumptions: []string{e2assume},
 		MinCounters: map[string]int64{"events": 1000}})
-	fw.Reg(&fw.Spec{ID: "C12", Level: "exploration", Quick: 1000, Thorough: 60000,
+	fw.Reg(&fw.Spec{ID: "C12", Level: "exploration", HangIsViolation: true, Quick: 1000, Thorough: 60000,
 		Rule: "all 13 selected-rule methods plus ExecuteSelectedWithSpecifiedEM, name lists = random subsets and permutations, unknown names at random positions, empty and all-unknown lists, selected N-M calls with wrong counts / unknown names; distinct by (method, list shape, set shape, trace)",
-		Assumptions: []string{e2assume, "duplicated names in one list are not generated (undefined by the property)"},
+		Assumptions: []string{e2assume, "for name lists with a duplicated name only 'no unselected rule runs' is decided"},
 		MinCounters: map[string]int64{"events": 1000}})
-	fw.Reg(&fw.Spec{ID: "C13", Level: "exploration", Quick: 800, Thorough: 60000,
+	fw.Reg(&fw.Spec{ID: "C13", Level: "exploration", HangIsViolation: true, Quick: 800, Thorough: 60000,
 		Rule: "DAG layerings with 0-5 layers of width 0-4, empty layers, unknown names, the same rule in several layers and twice in one layer, random failing subsets, a laggard in a layer that has successors, GOMAXPROCS varied; engine and pool mirror; distinct by (layer shape, set shape, trace)",
 		Assumptions: []string{e2assume},
 		MinCounters: map[string]int64{"events": 1000, "holds_entered": 50}})
-	fw.Reg(&fw.Spec{ID: "C14", Level: "exploration", Quick: 800, Thorough: 50000,
+	fw.Reg(&fw.Spec{ID: "C14", Level: "exploration", HangIsViolation: true, Quick: 800, Thorough: 50000,
 		Rule: "the four stop-tag methods (engine and pool), 0-2 rules that set the tag at random priority positions, random failing subsets, both policy values; the tagged run is validated against the oracle row of the tag-less method plus the stop clause; distinct by (method, setter position, shape, trace)",
 		Assumptions: []string{e2assume},
 		MinCounters: map[string]int64{"events": 1000}})
